@@ -363,6 +363,25 @@ def programs(thorough, seed):
                                   eq_spec(0b0110110, w2[0], w2[1], p=5, c=2)]),
                       group_spec([eq_spec(0b0010011, w2[0], w1[1], p=7,
                                           c=3)])])
+    # (5) context: a deviated group between two plain groups that use the
+    #     same arrays - code generated for a group must not depend on what
+    #     the previous group (which may be skipped or repeated at run time)
+    #     left behind
+    def plain(dest, c):
+        other = 'b' if dest == 'a' else 'a'
+        return group_spec([eq_spec(FULL, dest, (dest, other), p=3, c=c)])
+    for d in devs:
+        if d[0] in ('pre', 'post'):
+            continue
+        for pre_dest in ('a', 'b'):
+            for dests in (('a',), ('a', 'b'), ('b', 'a')):
+                g = group_spec([eq_spec(FULL, dd, ('a', 'b'), p=5, c=2 + i)
+                                for i, dd in enumerate(dests)])
+                g = apply_dev(g, *d)
+                for e in g['eqs']:
+                    e['nconv'] = 2
+                progs.append([plain(pre_dest, 1), g, plain('a', 4),
+                              plain('b', 6)])
     # (4) sub-groups with their own condition / pre / post / real / range
     sub1 = group_spec([eq_spec(FULL, 'a', ('a', 'b'), p=3, c=1)])
     sub2 = group_spec([eq_spec(0b1011010, 'b', ('a', 'c'), p=5, c=2)])
@@ -529,7 +548,9 @@ def run(ctx):
                     '1,2,4,never / condition / pre / post / update_nnps of a '
                     'three-equation group followed by a neighbour-dependent '
                     'probe group; two-group programs over all destination/'
-                    'source wirings of 3 arrays; sub-groups with their own '
+                    'source wirings of 3 arrays; every deviated group between '
+                    'plain groups on the same arrays and destinations '
+                    '(context independence); sub-groups with their own '
                     'flags inside 8 kinds of parents; every program is '
                     'evaluated twice (t=0 and t=1) by the compiled code and '
                     'by the reference interpreter on arrays with ghost '
